@@ -244,15 +244,16 @@ fn hist_names(h: &Histogram, nb: usize) -> HashMap<usize, String> {
 impl Area for ConcHist {
     fn corpus(&self) -> Vec<Vec<String>> {
         vec![vec!["chist bounds=1,2 prog=obs:1,obs:3|collect,collect|flush:1+2+2 sseed=4".into()], vec!["chist bounds=1 prog=collect|collect|obs:1,obs:1 sseed=8".into()],
-             vec!["chist bounds=1,2 prog=obs:2|collect,count,sum|collect sseed=15".into()]]
+             vec!["chist bounds=1,2 prog=obs:2|collect,count,sum|collect sseed=15".into()],
+             vec!["chist bounds=-1,1 prog=obs:-2,obs:-1|collect,collect,sum|flush:-3+1 sseed=21".into()], vec!["chist bounds=1 prog=obs:-4|collect,collect,collect sseed=3".into()]]
     }
     fn gen(&self, rng: &mut Rng, _thorough: bool, _stats: &mut Stats) -> Vec<String> {
-        let bounds = *rng.pick(&["1", "1,2", "1,2,4"]);
+        let bounds = *rng.pick(&["1", "1,2", "1,2,4", "-1,1"]);
         let nt = rng.range(2, 4);
         let mut prog: Vec<String> = vec![]; let mut has_col = false;
         for t in 0..nt { let role = rng.below(10); let n = rng.range(1, 3);
             let ops: Vec<String> = (0..n).map(|_| if role < 4 || (t == nt - 1 && !has_col) { has_col = true; match rng.below(8) { 0..=5 => "collect".to_string(), 6 => "count".into(), _ => "sum".into() } }
-                else if role < 8 { format!("obs:{}", rng.pick(&[0, 1, 2, 3, 5])) } else { let k = rng.range(1, 3); format!("flush:{}", (0..k).map(|_| rng.pick(&[1, 2, 3]).to_string()).collect::<Vec<_>>().join("+")) }).collect();
+                else if role < 8 { format!("obs:{}", rng.pick(&[0, 1, 2, 3, 5, -1, -2, -4])) } else { let k = rng.range(1, 3); format!("flush:{}", (0..k).map(|_| rng.pick(&[1, 2, 3, -1, -3, 0]).to_string()).collect::<Vec<_>>().join("+")) }).collect();
             prog.push(ops.join(",")); }
         vec![format!("chist bounds={} prog={} sseed={}", bounds, prog.join("|"), rng.next() % 1_000_000)]
     }
